@@ -1,7 +1,7 @@
 (* Property C08 — held links deliver nothing until released, then everything
    exactly once in order.  Statements only; proofs in C08_proofs.v. *)
 From TV.Lib Require Import Base.
-From TV.Link Require Import Model Facts C08_proofs.
+From TV.Link Require Import Model Facts Topo_proofs C08_proofs.
 Open Scope N_scope.
 
 (* A message that is parked (status OnHold in `sent`, in no ready queue) is in
@@ -61,6 +61,13 @@ Proof.
   - apply process_keeps_not_due.
 Qed.
 
+(* Links that are not held keep delivering: hold/release/manual delivery on
+   pair (a,b) leaves the link of every other pair exactly as it was. *)
+Theorem c08_unheld_links_untouched : forall t a b e q,
+  is_global e = false -> pair_eqb (pair_of a b) q = false ->
+  get_link q (tlinks (fst (tstep t (TLink a b e)))) = get_link q (tlinks t).
+Proof. exact topo_frame_link. Qed.
+
 (* Non-vacuity: a held message is not delivered during the hold and is
    delivered exactly once after release. *)
 Definition g0 := {| lmin := 0; lmax := 5 * ms |}.
@@ -86,4 +93,5 @@ Print Assumptions c08_at_most_once.
 Print Assumptions c08_conservation.
 Print Assumptions c08_release_order.
 Print Assumptions c08_links_view.
+Print Assumptions c08_unheld_links_untouched.
 Print Assumptions c08_nonvacuous.
